@@ -21,4 +21,7 @@ CASES = [
     dict(expect="silent", desc="start: flipped comparison", edits=[dict(file=V,
          old="                if item.duetime > self.now:\n                    if isinstance(self._clock, datetime):\n                        self._clock = item.duetime\n                    else:\n                        self._clock = self.to_seconds(item.duetime)\n                    spinning = 0\n",
          new="                if self.now < item.duetime:\n                    if isinstance(self._clock, datetime):\n                        self._clock = item.duetime\n                    else:\n                        self._clock = self.to_seconds(item.duetime)\n                    spinning = 0\n")]),
+    dict(expect="fire", desc="seed C42-r3/2: advance_to moves the clock to the target in a finally", names="A1-advance-bounds", edits=[dict(file="reactivex/scheduler/virtualtimescheduler.py",
+         old="        with self._lock:\n            self._is_enabled = False\n            if isinstance(self._clock, datetime):\n                self._clock = dt\n            else:\n                self._clock = self.to_seconds(dt)\n",
+         new="        try:\n            pass\n        finally:\n            with self._lock:\n                self._is_enabled = False\n                if isinstance(self._clock, datetime):\n                    self._clock = dt\n                else:\n                    self._clock = self.to_seconds(dt)\n")]),
 ]
